@@ -1,14 +1,16 @@
 #!/bin/bash
 # usage: tools/seedtest.sh <patch> <CNN> [more CNN...]
-# Applies a seeded change to /repo, runs the quick tier of the given checks, and restores /repo.
+# Applies a seeded change to a scratch worktree of /repo HEAD (never to /repo itself), runs the
+# given checks against that worktree (VERIF_REPO), and removes the worktree.
 patch="$1"; shift
-cd /repo || exit 2
-if [ -n "$(git status --porcelain)" ]; then echo "repo not clean"; exit 2; fi
-if ! git apply -3 "$patch" 2>/tmp/seedtest.err; then echo "PATCH DOES NOT APPLY: $(head -3 /tmp/seedtest.err)"; git checkout -- . ; exit 3; fi
-git reset -q 2>/dev/null
+wt=$(mktemp -d /tmp/seedwt.XXXXXX)
+cd /repo && git worktree add -q --detach "$wt" HEAD || exit 2
+cleanup() { cd /repo; git worktree remove --force "$wt" 2>/dev/null; git worktree prune; }
+trap cleanup EXIT
+cd "$wt"
+if ! git apply -3 "$patch" 2>/tmp/seedtest.err; then echo "PATCH DOES NOT APPLY: $(head -3 /tmp/seedtest.err)"; exit 3; fi
 for p in "$@"; do
-  out=$(cd /verif && VERIF_SEED=${VERIF_SEED:-1} ./vcheck $p --tier ${TIER:-quick} 2>&1 | grep -v "^KNOWN")
-  rc=$?
+  out=$(cd /verif && VERIF_REPO="$wt" VERIF_EVIDENCE_DIR="$wt/.evidence" VERIF_SEED=${VERIF_SEED:-1} ./vcheck $p --tier ${TIER:-quick} 2>&1 | grep -v "^KNOWN")
   if echo "$out" | grep -q "^VIOLATION"; then
     echo "$p: CAUGHT  $(echo "$out" | grep -m1 'campaign=' | cut -c1-160)"
   elif echo "$out" | grep -q "INCONCLUSIVE"; then
@@ -17,5 +19,3 @@ for p in "$@"; do
     echo "$p: missed   $(echo "$out" | tail -1 | cut -c1-120)"
   fi
 done
-cd /repo && git checkout -- . && git clean -fdq -- . 2>/dev/null
-git status --porcelain | head -3
